@@ -36,6 +36,18 @@ B3(x) == { << L(1, x) >>, << L(1, "g"), L(0, "g") >>, << L(1, x), L(1, "f") >>, 
 Family3 == { << Fact("f"), Fact("g"), Fact("t") >> \o as \o bs \o cs :
                as \in ClauseSeqs("p", B3("r")), bs \in { << Rule("q", << L(1, "p") >>) >>, << Rule("q", << L(1, "p"), L(1, "f") >>) >> },
                cs \in ClauseSeqs("r", B3("q")) }
+\* a cycle nested in a cycle, with a negated call of the inner goal from a sibling branch of the outer one
+\* (q :- q, \+p.  q :- p.  p :- a.  a :- a.  a :- f.): stratified, although p is still active when \+p is evaluated
+FamilyNested == { << Fact("f"), Fact("g") >> \o qs \o ps \o as :
+                    qs \in { << Rule("q", << L(1, "q"), L(0, "p") >>), Rule("q", << L(1, "p") >>) >>,
+                             << Rule("q", << L(1, "p") >>), Rule("q", << L(1, "q"), L(0, "p") >>) >>,
+                             << Rule("q", << L(0, "p"), L(1, "q") >>), Rule("q", << L(1, "p"), L(1, "g") >>) >>,
+                             << Rule("q", << L(1, "p"), L(1, "q") >>), Rule("q", << L(0, "a") >>), Rule("q", << L(1, "p") >>) >> },
+                    ps \in { << Rule("p", << L(1, "a") >>) >>, << Rule("p", << L(1, "a"), L(0, "f") >>) >>,
+                             << Rule("p", << L(1, "g") >>), Rule("p", << L(1, "a") >>) >> },
+                    as \in { << Rule("a", << L(1, "a") >>), Rule("a", << L(1, "f") >>) >>,
+                             << Rule("a", << L(1, "f") >>), Rule("a", << L(1, "a"), L(1, "g") >>) >>,
+                             << Rule("a", << L(1, "p") >>), Rule("a", << L(1, "f") >>) >> } }
 SmallPrograms == FamilyPQ
 AllPrograms   == FamilyPQ \cup FamilyDeep
 QS2 == { << "p" >>, << "p", "q" >>, << "q", "p" >> }
